@@ -65,9 +65,7 @@ class PageFeatureProcessor:
         # --- Logic from DocumentService.apply_pagination_borders ---
 
         # 1. First Page Logic
-        has_column_headers = (
-            document.rtf_column_header and len(document.rtf_column_header) > 0
-        )
+        has_column_headers = self._renders_column_header(document)
 
         # If first page, NO headers, apply PAGE border_first to top of body
         if (
@@ -178,6 +176,28 @@ class PageFeatureProcessor:
                     )
 
         return page_attrs
+
+    @staticmethod
+    def _renders_column_header(document) -> bool:
+        """True when at least one column header row is actually rendered.
+
+        A configured header without text is only rendered when the body
+        auto-populates it from the column names (as_colheader).
+        """
+        headers = document.rtf_column_header
+        if not headers:
+            return False
+        flat: list[Any] = []
+        for header in headers:
+            if isinstance(header, (list, tuple)):
+                flat.extend(header)
+            else:
+                flat.append(header)
+        as_colheader = getattr(document.rtf_body, "as_colheader", True)
+        return any(
+            header is not None and (header.text is not None or as_colheader)
+            for header in flat
+        )
 
     def _rebase_matrix_rows(self, page_attrs, start_row: int, height: int) -> None:
         """Slice every row-wise matrix attribute to the rows of this page."""
